@@ -139,7 +139,7 @@ Definition find_outermost (br : branges) (line : Z) : res (option (Z * Z)) :=
   let i := bisect_left starts line in
   let n := length starts in
   match starts with
-  | [] => Raise IndexError         (* i = 0, so `line == self._starts[0]` is evaluated *)
+  | [] => Ok None                  (* `if not self._starts: return None, None` (fix ba484d5; before it: IndexError) *)
   | s0 :: _ =>
     if negb (i =? 0)%nat || (line =? s0) then
       bind (if ((i <? n)%nat && (nth i starts 0 =? line))%bool then Ok (nth i starts 0)
